@@ -135,11 +135,12 @@ CorrNum(c, R, one, i, j) ==
   LET dg == DigTab(c) p == PosOf(c, one)
   IN ISumTo([r \in Idx(c) |-> IF dg[r][i] = p /\ dg[r][j] = p THEN R[<<r, r>>][1] ELSE 0], Size(c) - 1)
 (* measurement: qudit in `one` reads 1, anything else reads 0; bit pattern as a number, qudit 0 first *)
-BitsOf(c, one, r) ==
+BitsTab(c, one) ==
   LET dg == DigTab(c) p == PosOf(c, one)
-  IN ISumTo([k \in 0..(c.n - 1) |-> IF dg[r][k] = p THEN Pow(2, c.n - 1 - k) ELSE 0], c.n - 1)
-BitNum(c, R, one, b) ==
-  ISumTo([r \in Idx(c) |-> IF BitsOf(c, one, r) = b THEN R[<<r, r>>][1] ELSE 0], Size(c) - 1)
+  IN Ev([r \in Idx(c) |->
+          ISumTo([k \in 0..(c.n - 1) |-> IF dg[r][k] = p THEN Pow(2, c.n - 1 - k) ELSE 0], c.n - 1)])
+BitNum(c, R, bt, b) ==                 \* bt = BitsTab(c, one)
+  ISumTo([r \in Idx(c) |-> IF bt[r] = b THEN R[<<r, r>>][1] ELSE 0], Size(c) - 1)
 (* second moment of H on sum_m w_m |psi_m><psi_m| without squaring H: sum_m w_m |H psi_m|^2 *)
 RECURSIVE M2To(_, _, _, _)
 M2To(c, H, comps, m) ==
